@@ -307,3 +307,16 @@ Proof.
   unfold layer_get. rewrite get_own_spec in H. unfold layer_get in H.
   apply first_some_app_none. exact H.
 Qed.
+
+(* ---- linked contexts: the linked chain is asked first, completely, then the own parent chain ------------------- *)
+Lemma linked_read s par l n :
+  get_data s (new_linked par l) n
+  = match get_data s l n with
+    | Some v => Some v
+    | None => match par with Some p => get_data s p n | None => None end
+    end.
+Proof.
+  rewrite !get_data_spec, new_linked_flatten. unfold layers_get. rewrite first_some_app.
+  destruct (first_some (layer_get s n) (flatten l)); [reflexivity|].
+  destruct par as [p|]; [rewrite get_data_spec; reflexivity|reflexivity].
+Qed.
